@@ -310,6 +310,13 @@ def cases(ctx):
             continue
         seen.add(r)
         yield {"kind": "tree", "desc": t}
+    # every leaf type inside a list (decoded through the dynamic format-code table)
+    for code in gen.LEAF_CODES:
+        if code == "J":
+            continue
+        for n in (0, 1, 2):
+            for rot in range(0, len(gen.boundary(code)), 3):
+                yield {"kind": "tree", "desc": {"code": "L", "items": [{"code": code, "n": n, "rot": rot}, {"code": "U1", "vals": [9]}]}}
     # lists whose *element count* crosses a length-byte boundary, and deep nesting
     for n in (255, 256) + ((65535, 65536) if thorough else ()):
         yield {"kind": "tree", "desc": {"code": "L", "items": [{"code": "U1", "vals": [i % 256]} for i in range(n)]}}
